@@ -59,8 +59,10 @@ CHECKS = {
     'C08': dict(level='fault_enumeration', ref='DESIGN.md 4 C08',
                 text='One ending cause per run (exit()/exception at init/setup/k-th process/shutdown, injected socket error '
                      'on send/recv, stop event, exit_after in three forms) at a drawn filter of chain/tee/rejoin with drawn '
-                     'propagate/obey policies per filter: lifecycle automaton, socket census, stop event, outcome, and exit '
-                     'propagation against a BFS model of the policies, exit_after timing.',
+                     'propagate/obey policies per filter: lifecycle automaton, socket census, stop event, outcome, exit '
+                     'propagation against a BFS model of the policies (who must end, who must not, and that every ending '
+                     'filter puts its announcement on each of its channels), exit_after timing (also with outputs_timeout and '
+                     'consumers that stopped asking).',
                 note=MQ_NOTE + ' Cause x policy x position space is sampled by seed (quick 1.5k runs), not enumerated. Two '
                      'open known findings (filters deaf to announcements while blocked on the other channel); neighbours of '
                      'the ending filter may run with loop_exc=False.'),
